@@ -66,6 +66,17 @@ DIRECTED = [
      'Lib': {'depends': ['mid'], 'buildScript': 'echo upper\n', 'packageScript': 'true\n'},
      'mid': {'depends': ['lib'], 'buildScript': 'echo mid\n', 'packageScript': 'true\n'},
      'lib': {'buildScript': 'echo lower\n', 'packageScript': 'true\n'}},
+    # a shared variant (lib-x, used by a and by zb-1) whose SECOND user must learn what the merged job reaches: lib-x/lib-y share the
+    # job 'lib', lib-y -> zb-2, zb-1 -> lib-x: zb-1 and zb-2 must not be merged (lib -> zb -> lib)
+    {'root': {'root': True, 'depends': ['a', 'zb-1', 'lib-y'], 'buildScript': 'echo root\n', 'packageScript': 'echo root\n'},
+     'a': {'depends': ['lib-x'], 'buildScript': 'echo a\n', 'packageScript': 'echo a\n'},
+     'lib': {'buildScript': 'echo lib\n', 'multiPackage': {'x': {'packageScript': 'echo lib-x\n'}, 'y': {'depends': ['zb-2'], 'packageScript': 'echo lib-y\n'}}},
+     'zb': {'buildScript': 'echo zb\n', 'multiPackage': {'1': {'depends': ['lib-x'], 'packageScript': 'echo zb-1\n'}, '2': {'packageScript': 'echo zb-2\n'}}}},
+    # the same with a third user and the shared variant reached last
+    {'root': {'root': True, 'depends': ['zb-1', 'lib-y', 'a', 'b'], 'buildScript': 'echo root\n', 'packageScript': 'echo root\n'},
+     'a': {'depends': ['lib-x'], 'buildScript': 'echo a\n', 'packageScript': 'echo a\n'}, 'b': {'depends': ['lib-x', 'zb-2'], 'buildScript': 'echo b\n', 'packageScript': 'echo b\n'},
+     'lib': {'buildScript': 'echo lib\n', 'multiPackage': {'x': {'packageScript': 'echo lib-x\n'}, 'y': {'depends': ['zb-2'], 'packageScript': 'echo lib-y\n'}}},
+     'zb': {'buildScript': 'echo zb\n', 'multiPackage': {'1': {'depends': ['lib-x'], 'packageScript': 'echo zb-1\n'}, '2': {'packageScript': 'echo zb-2\n'}}}},
     {'root': {'root': True, 'depends': ['a.b'], 'buildScript': 'true\n', 'packageScript': 'true\n'},
      'a.b': {'depends': ['a_b'], 'buildScript': 'true\n', 'packageScript': 'true\n'},
      'a_b': {'buildScript': 'echo underscore\n', 'packageScript': 'true\n'}},
